@@ -145,6 +145,10 @@ func (u *Unit) VerifyFunc() {
 				if lbl == "" {
 					lbl = fmt.Sprintf("c%d", i)
 				}
+				if mt := u.P.desigNamesMissingTarget(cl.Desig); mt != nil {
+					u.errs = append(u.errs, fmt.Sprintf("cannot decide assert_call %s (%s): the contract target %s (%s:%d) no longer exists under that name", cl.Desig, lbl, mt.Target, mt.File, mt.Line))
+					continue
+				}
 				var hs []string
 				for h, hf := range u.uncontracted {
 					if u.helperMayCall(hf, cl.Desig) {
@@ -265,8 +269,12 @@ func (u *Unit) topReturn(st *State, fr *Frame, res []Val) {
 		env.key = fmt.Sprintf("%s.ens%d", u.Name, i)
 		g, err := env.EvalBool(cl.Expr)
 		if err != nil {
-			u.specError(cl, err)
-			continue
+			if u.missingCallIsViolation(err) {
+				g = False // the clause speaks about a call this path no longer makes
+			} else {
+				u.specError(cl, err)
+				continue
+			}
 		}
 		lbl := cl.Name
 		if lbl == "" {
